@@ -658,3 +658,59 @@ func c12r7(rc *core.RC) {
 		rc.OK("decoder/context-buffer-never-recycled", token.NoPos, "%d uses of the decoder context's Buf examined: none is the base of an append or the destination of a copy", sites)
 	}
 }
+
+// ---- C12.R8 a []byte destination receives memory of its own ----
+
+// Strings the decoder hands out may point into the call's private copy of the input: they are immutable. A []byte is
+// not: the caller may write to it and append within its capacity. Every slice stored into a []byte destination
+// (`*(*[]byte)(p) = x` in a decoder method) must therefore be freshly made (or nil), never a view of the private input
+// copy or of the stream window, where the other values decoded from the same document live.
+func c12r8(rc *core.RC) {
+	p := rc.P
+	of := core.NewOriginFinder(p)
+	n := 0
+	for _, fn := range p.ModuleFuncs() {
+		if fn.Pkg == nil || fn.Pkg.Pkg.Path() != core.PkgPaths["decoder"] {
+			continue
+		}
+		k := 0
+		for _, b := range fn.Blocks {
+			for _, ins := range b.Instrs {
+				st, ok := ins.(*ssa.Store)
+				if !ok {
+					continue
+				}
+				pt, isPtr := st.Addr.Type().Underlying().(*types.Pointer)
+				if !isPtr {
+					continue
+				}
+				sl, isSlice := pt.Elem().Underlying().(*types.Slice)
+				if !isSlice {
+					continue
+				}
+				if bt, isBasic := sl.Elem().Underlying().(*types.Basic); !isBasic || bt.Kind() != types.Uint8 {
+					continue
+				}
+				// the address is an unsafe.Pointer converted to *[]byte: a destination of unknown provenance
+				cv, isConv := st.Addr.(*ssa.Convert)
+				if !isConv || cv.X.Type().String() != "unsafe.Pointer" {
+					continue
+				}
+				n++
+				k++
+				rc.Touch(core.SSAName(fn))
+				key := fmt.Sprintf("%s/store-to-[]byte-destination#%d fresh-memory", core.SSAName(fn), k)
+				fresh, bad := freshOnly(of.Origins(st.Val))
+				rc.Check(fresh, key, core.SSAPos(st), "the slice stored into the []byte destination is freshly made or nil%s", func() string {
+					if fresh {
+						return ""
+					}
+					return " — it derives from " + bad + ": the caller's []byte is a writable view (with spare capacity) of the buffer that also holds the strings, keys and other values decoded from the same document"
+				}())
+			}
+		}
+	}
+	if n < 4 {
+		rc.Unknown("decoder/[]byte-destination-stores", token.NoPos, "found %d stores to a []byte destination (confirmed: 4 in bytesDecoder)", n)
+	}
+}
